@@ -43,12 +43,20 @@ pub fn roundtrip_failure(f: Fmt, nd: &ND) -> Option<String> {
         Out::Ok(c) => {
             let want = nd.canon();
             if c != want {
-                Some(format!("parse({:?}) = {} but the original is {}", s, c, want))
-            } else {
-                None
+                return Some(format!("parse({:?}) = {} but the original is {}", s, c, want));
             }
         }
-        other => Some(format!("parse({:?}) = {}", s, other.short())),
+        other => return Some(format!("parse({:?}) = {}", s, other.short())),
+    }
+    // ... and the library's own `==` must agree that the parsed value is the original
+    // (users write `assert_eq!(parse(format(v)), v)`)
+    match enum_parse_value(f, &s) {
+        Ok(Ok(p)) => match observe(|| p == v) {
+            Obs::Ret(true) => None,
+            Obs::Ret(false) => Some(format!("parse({:?}) is semantically identical to the original ({}) but the library's == says they differ", s, nd.canon())),
+            Obs::Panic(pn) => Some(format!("comparing the parsed value with the original panicked: {}", pn)),
+        },
+        _ => None,
     }
 }
 
